@@ -512,8 +512,11 @@ def unit_induce_panic(eng, tier, prop):
     for p in final:
         if p.outcome[0] != "panic":
             continue
-        stv = p.frames[0].locals["_1"].val.cell.val.fields[(None, i_ss)].val.cell.val
-        lst = stv.fields[(None, i_pr)].val.fields[(None, 0)].val.fields[("mutex", 0)].val
+        try:
+            stv = p.frames[0].locals["_1"].val.cell.val.fields[(None, i_ss)].val.cell.val
+            lst = stv.fields[(None, i_pr)].val.fields[(None, 0)].val.fields[("mutex", 0)].val
+        except (KeyError, AttributeError, IndexError):
+            lst = None
         it = lst.items[0].val if isinstance(lst, VecVal) and len(lst.items) == 1 else None
         if it is None:
             continue   # already reported by recorded-exactly-once-before-panic
@@ -551,7 +554,6 @@ def unit_induce_panic(eng, tier, prop):
                     u.errors.append(f"report[{var}]: {p.outcome}")
                     continue
                 check_paths([p], f"report[{var}]", None)
-                stv = p.frames[0].locals["_2"].val.cell.val.fields[(None, i_ss)].val.cell.val if p.frames else None
                 # find the recorded error's variant
                 rec = None
                 for fr_ in p.frames:
@@ -775,6 +777,458 @@ def unit_eval_dyn(eng, tier, prop):
     return u.result()
 
 
+def unit_assembler(eng, tier, prop):
+    """C04 / C14 / C18 / C01(c): MockAssembler::push + new_call_pattern over every sequence of N pushes with symbolic
+    method, mode, exactness and count: per-method lists in push order, consecutive slot ranges for ordered patterns,
+    unordered patterns never consume slots, mode conflicts rejected at the first offending push."""
+    N = 4 if tier == "thorough" else 3
+    KEYS = (100, 200, 300) if tier == "thorough" else (100, 200)
+    u = Unit(eng, "assembler", ["MockAssembler::push", "MockAssembler::new_call_pattern", "CallCountExpectation::exact_calls", "CallCountExpectation::into_counter"],
+             f"every sequence of N<={N} pushes; per push: method in {len(KEYS)} methods, mode in {{unordered, ordered}}, exactness in 3 variants, count: all 2^64 values, responder_error in {{None, Some}}")
+    f = eng.find_fn(r"assemble::<impl at src/assemble\.rs:\d+:1: \d+:42>::push$")
+    i_mode = field_index(eng, "DynCallPatternBuilder", "pattern_match_mode")
+    i_im = field_index(eng, "DynCallPatternBuilder", "input_matcher")
+    i_resp = field_index(eng, "DynCallPatternBuilder", "responders")
+    i_ce = field_index(eng, "DynCallPatternBuilder", "count_expectation")
+    i_re = field_index(eng, "DynCallPatternBuilder", "responder_error")
+    i_min = field_index(eng, "CallCountExpectation", "minimum")
+    i_ex = field_index(eng, "CallCountExpectation", "exactness")
+    i_fm = field_index(eng, "MockAssembler", "fn_mockers")
+    i_cur = field_index(eng, "MockAssembler", "current_call_index")
+    IN_ORDER = eng.variant_index("PatternMatchMode", "InOrder")
+    EXACT = eng.variant_index("Exactness", "Exact")
+    key = [eng.named(f"push{i}.method", 64) for i in range(N)]
+    mode = [eng.named(f"push{i}.mode", 64) for i in range(N)]
+    exa = [eng.named(f"push{i}.exactness", 64) for i in range(N)]
+    cnt = [eng.named(f"push{i}.count", 64) for i in range(N)]
+    rerr = [eng.named(f"push{i}.responder_error", 64) for i in range(N)]
+    dom = []
+    for i in range(N):
+        dom += [z3.Or([key[i] == k for k in KEYS]), z3.ULE(mode[i], 1), z3.ULE(exa[i], 2), z3.ULE(rerr[i], 1)]
+
+    def mk_builder(i):
+        b = lazy_adt("DynCallPatternBuilder", f"builder{i}")
+        b.fields[(None, i_mode)] = Cell(Adt("PatternMatchMode", Int(mode[i], 64, True)), None, "mode")
+        im = Adt("DynInputMatcher", None)
+        im.tag = ("matcher_of_push", i)
+        b.fields[(None, i_im)] = Cell(im, None, "input_matcher")
+        rs = VecVal(None, [], "Vec")
+        rs.tag = ("responders_of_push", i)
+        b.fields[(None, i_resp)] = Cell(rs, None, "responders")
+        ce = Adt("CallCountExpectation", None)
+        ce.fields[(None, i_min)] = Cell(Int(cnt[i], 64, False), "usize", "minimum")
+        ce.fields[(None, i_ex)] = Cell(Adt("Exactness", Int(exa[i], 64, True)), None, "exactness")
+        b.fields[(None, i_ce)] = Cell(ce, None, "count_expectation")
+        oe = Adt("Option", Int(rerr[i], 64, True))
+        oe.fields[("Some", 0)] = Cell(Opaque("output::OutputError", f"oerr{i}"), None, "oerr")
+        b.fields[(None, i_re)] = Cell(oe, None, "responder_error")
+        info = lazy_adt("MockFnInfo", f"info{i}")
+        info.fields[(None, field_index(eng, "MockFnInfo", "type_id"))] = Cell(Int(key[i], 64, False), None, "type_id")
+        return info, b
+
+    asm = lazy_adt("MockAssembler", "asm")
+    asm.fields[(None, i_fm)] = Cell(MapVal([]), None, "asm.fn_mockers")
+    asm.fields[(None, i_cur)] = Cell(bv(0), "usize", "asm.current_call_index")
+    m0 = eng.start(f, [Opaque("?", "x")] * 3)   # placeholder frame, replaced below
+    m0.frames.pop()
+    m0.user["asm"] = Cell(asm, None, "asm")
+    m0.user["results"] = []
+    m0.pc += dom
+    frontier = [m0]
+    finals = []
+    for i in range(N):
+        nxt = []
+        for m in frontier:
+            info, b = mk_builder(i)
+            m.outcome = None
+            m.visits = {}
+            eng.start(f, [Ref(m.user["asm"]), info, b], m)
+            paths = eng.explore(m)
+            u.paths += len(paths)
+            for p in paths:
+                k = p.outcome[0]
+                if k in ("unknown", "bound"):
+                    u.errors.append(f"push#{i}: {p.outcome}")
+                    continue
+                if k == "return":
+                    ok = p.outcome[1].discr == eng.variant_index("Result", "Ok")
+                    p.user["results"].append("Ok" if ok else "Err")
+                    if ok and i + 1 < N:
+                        nxt.append(p)
+                    else:
+                        finals.append((i, p))
+                    if ok and i + 1 < N:
+                        finals.append((i, copy.deepcopy(p)))     # also check the state after every prefix
+                else:
+                    p.user["results"].append("panic:" + p.outcome[1])
+                    finals.append((i, p))
+        frontier = nxt
+    # ---- oracle over each final path
+    def conflict_at(i):
+        # push i conflicts iff an earlier (accepted) push of the same method had another mode
+        return z3.Or([z3.And(key[j] == key[i], mode[j] != mode[i]) for j in range(i)]) if i else z3.BoolVal(False)
+
+    def slot_start(i):
+        s_ = z3.BitVecVal(0, 64)
+        for j in range(i):
+            s_ = s_ + z3.If(mode[j] == IN_ORDER, cnt[j], z3.BitVecVal(0, 64))
+        return s_
+    seen_kinds = set()
+    for i, p in finals:
+        res = p.user["results"]
+        last = res[-1]
+        ctx = {"pushes": i + 1, "results": res}
+        seen_kinds.add(last.split(":")[0] if not last.startswith("panic") else ("panic-bug" if "BUG" in last else "panic-overflow"))
+        if last == "Err":
+            u.must_hold("C14.err-only-on-conflict-or-unproducible-output", p.pc, z3.Or(conflict_at(i), rerr[i] == 1), ctx)
+            continue    # the assembler is discarded after an Err (construction panics): its state is unobservable
+        elif last.startswith("panic"):
+            if "BUG" in last:
+                u.must_hold("C14.inexact-ordered-is-the-only-bug-panic", p.pc, z3.And(mode[i] == IN_ORDER, exa[i] != EXACT), ctx)
+            else:
+                u.must_be_unsat("C04.overflow-panic-only-on-real-overflow", list(p.pc) + [z3.BVAddNoOverflow(slot_start(i), cnt[i], False)], ctx)
+            continue
+        if last == "Ok":
+            u.must_hold("C14.ok-means-no-conflict-and-producible", p.pc, z3.And(z3.Not(conflict_at(i)), rerr[i] == 0), ctx)
+        # state after the accepted pushes 0..n_acc-1
+        n_acc = i + 1
+        asm_v = p.user["asm"].val
+        mp = asm_v.fields[(None, i_fm)].val
+        cur = asm_v.fields[(None, i_cur)].val
+        u.must_hold("C04.next-slot-is-sum-of-ordered-counts", p.pc, cur.e == slot_start(n_acc), ctx)
+        placed = {}
+        for kc, vc in mp.entries:
+            fm = vc.val
+            pats = fm.fields[(None, field_index(eng, "FnMocker", "call_patterns"))].val
+            fmode = fm.fields[(None, field_index(eng, "FnMocker", "pattern_match_mode"))].val
+            ids = []
+            for pc_ in pats.items:
+                cp = pc_.val
+                im = cp.fields[(None, field_index(eng, "CallPattern", "input_matcher"))].val
+                rs = cp.fields[(None, field_index(eng, "CallPattern", "responders"))].val
+                rg = cp.fields[(None, field_index(eng, "CallPattern", "ordered_call_index_range"))].val
+                j = im.tag[1] if im.tag else None
+                ids.append(j)
+                u.must_be_true("C14.pattern-keeps-its-own-responders", rs.tag == ("responders_of_push", j), ctx)
+                placed[j] = True
+                st_, en_ = rg.fields[(None, 0)].val.e, rg.fields[(None, 1)].val.e
+                u.must_hold("C01.pattern-filed-under-its-own-method", p.pc, eng.force(kc, "int").e == key[j], ctx)
+                u.must_hold("C04.ordered-range-is-consecutive", p.pc, z3.If(mode[j] == IN_ORDER, z3.And(st_ == slot_start(j), en_ == slot_start(j) + cnt[j]), z3.And(st_ == 0, en_ == 0)), ctx)
+                u.must_hold("C14.method-mode-is-the-mode-of-its-patterns", p.pc, eng.discr_of(fmode).e == mode[j], ctx)
+                cc = cp.fields[(None, field_index(eng, "CallPattern", "call_counter"))].val
+                exp_ = cc.fields[(None, field_index(eng, "CallCounter", "expectation"))].val
+                u.must_hold("C03.expectation-carried-over", p.pc, exp_.fields[(None, i_min)].val.e == cnt[j], ctx)
+            u.must_be_true("C01.per-method-list-in-declaration-order", ids == sorted(ids), {"ids": ids})
+        u.must_be_true("C14.no-clause-dropped-or-duplicated", sorted(placed) == list(range(n_acc)), {"placed": sorted(placed), "n": n_acc})
+    valid = [z3.ULE(eng.named(f"oerr{i}.discr", 64), 1) for i in range(N)]     # validity invariant of the 2-variant enum
+    u.must_be_unsat("assembler.paths-cover-all-sequences", dom + valid + [z3.Not(z3.Or([z3.And(p.pc) for i, p in finals if i == N - 1 or not p.user["results"][-1] == "Ok"]))])
+    # C18 lemma about the oracle itself: swapping two adjacent pushes of different methods (not both ordered) changes
+    # neither any pattern's range nor the per-method order (ranges depend only on the ordered subsequence before it)
+    for a in range(N - 1):
+        b_ = a + 1
+        pre = [key[a] != key[b_], z3.Not(z3.And(mode[a] == IN_ORDER, mode[b_] == IN_ORDER))]
+        sa = slot_start(a)
+        # after the swap, push b comes first: its start is slot_start(a); push a's start is slot_start(a) + [b ordered]*cnt[b]
+        new_start_b = sa
+        new_start_a = sa + z3.If(mode[b_] == IN_ORDER, cnt[b_], z3.BitVecVal(0, 64))
+        old_start_b = slot_start(b_)
+        u.must_be_unsat(f"C18.adjacent-swap-keeps-ranges[{a}]", dom + pre + [z3.Or(
+            z3.And(mode[b_] == IN_ORDER, new_start_b != old_start_b),
+            z3.And(mode[a] == IN_ORDER, new_start_a != sa))])
+    u.witness(f"outcome kinds seen: {sorted(seen_kinds)}", [z3.BoolVal({"Ok", "Err", "panic-bug", "panic-overflow"} <= seen_kinds)])
+    return u.result()
+
+
+def unit_tuples(eng, tier, prop):
+    """C14: every tuple impl (arity 2..16) deconstructs elements 0..n-1, each exactly once, in order, stopping at the
+    first Err (which is returned unchanged); () pushes nothing."""
+    u = Unit(eng, "tuple-clauses", ["<(T1..Tn) as Clause>::deconstruct for n=2..16", "<() as Clause>::deconstruct"],
+             "all 15 tuple arities; each element's result symbolic in {Ok, Err}; nesting by structural induction")
+    fns = [f for f in eng.fns if f.short == "deconstruct" and f.module.startswith("clause::") and f.params and f.params[0][1].startswith("(")]
+    by_arity = {}
+    for f in fns:
+        ty = f.params[0][1]
+        n = 0 if ty == "()" else len([x for x in __import__("uv.mirsym.parse", fromlist=["split_top"]).split_top(ty[1:-1]) if x])
+        by_arity[n] = f
+    u.must_be_true("C14.all-arities-2..16-present", sorted(by_arity) == [0] + list(range(2, 17)), {"found": sorted(by_arity)})
+    rx = re.compile(r"^<T\d+ as Clause>::deconstruct$")
+
+    def h(call):
+        el = call.argv[0]
+        idx = el.tag[1] if isinstance(el, Adt) and el.tag else None
+        sink = call.argv[1].cell.name if isinstance(call.argv[1], Ref) else "?"
+        k = eng.decide(call.m, ("elem", call.fr.bb), [eng.named_bool(f"elem{idx}.ok"), z3.Not(eng.named_bool(f"elem{idx}.ok"))])
+        call.m.event("elem", idx, sink)
+        if k == 0:
+            return eng.mk_enum("Result", "Ok", UNIT)
+        e = Adt("String", None)
+        e.tag = ("error_of", idx)
+        return eng.mk_enum("Result", "Err", e)
+    eng.handlers.insert(0, (rx, h))
+    try:
+        for n, f in sorted(by_arity.items()):
+            tup = Adt("(tuple)", None)
+            for i in range(n):
+                el = Adt(f"T{i + 1}", None)
+                el.tag = ("elem", i)
+                tup.fields[(None, i)] = Cell(el, None, f"tup.{i}")
+            paths = u.explore(f, [tup if n else UNIT, Ref(Cell(Opaque("dyn Sink", "sink"), None, "sink"))], note=f"[n={n}]")
+            oks = [eng.named_bool(f"elem{i}.ok") for i in range(n)]
+            u.must_be_true(f"C14.one-path-per-first-error-position[n={n}]", len([p for p in paths if p.outcome[0] == "return"]) == n + 1, {"paths": len(paths)})
+            for p in paths:
+                if p.outcome[0] != "return":
+                    if p.outcome[0] == "panic":
+                        u.must_be_true(f"C14.tuple-never-panics[n={n}]", False, {"site": p.outcome[1]})
+                    continue
+                ev = events(p, "elem")
+                order = [e[1] for e in ev]
+                val = p.outcome[1]
+                is_ok = val.discr == eng.variant_index("Result", "Ok")
+                u.must_be_true(f"C14.elements-in-order-each-once[n={n}]", order == list(range(len(order))), {"order": order})
+                u.must_be_true(f"C14.same-sink-for-every-element[n={n}]", all(e[2] == "sink" for e in ev))
+                if is_ok:
+                    u.must_be_true(f"C14.ok-only-after-all-elements[n={n}]", len(order) == n, {"order": order})
+                    u.must_hold(f"C14.ok-only-if-all-ok[n={n}]", p.pc, z3.And(oks) if oks else z3.BoolVal(True))
+                else:
+                    k = len(order) - 1
+                    err = val.fields[("Err", 0)].val
+                    u.must_be_true(f"C14.first-error-returned-unchanged[n={n}]", isinstance(err, Adt) and err.tag == ("error_of", k), {"err": repr(err)[:80], "k": k})
+                    u.must_hold(f"C14.stops-at-first-error[n={n}]", p.pc, z3.And([oks[j] for j in range(k)] + [z3.Not(oks[k])]))
+        u.witness("tuple impls explored", [z3.BoolVal(len(by_arity) >= 16)])
+    finally:
+        eng.handlers.remove((rx, h))
+    return u.result()
+
+
+def unit_construction(eng, tier, prop):
+    """C14: a stub without patterns is rejected; a stub pushes its patterns in order with its own MockFn info;
+    an assembly error panics at construction, before any instance exists."""
+    u = Unit(eng, "construction", ["<Each<F> as Clause>::deconstruct", "Unimock::from_assembler", "MockAssembler::try_from_clause"],
+             "Each with K=0..3 patterns, each push result symbolic; from_assembler with Ok/Err")
+    f = eng.find_fn(r"^build::<impl at src/build\.rs:\d+:1: \d+:15>::deconstruct$")
+    i_p = field_index(eng, "Each", "patterns")
+    rx = re.compile(r"^<dyn (term::)?Sink as (term::)?Sink>::push$")
+
+    def h(call):
+        b = call.argv[2]
+        idx = b.tag[1] if isinstance(b, Adt) and b.tag else None
+        k = eng.decide(call.m, ("push", call.fr.bb, idx), [eng.named_bool(f"push{idx}.ok"), z3.Not(eng.named_bool(f"push{idx}.ok"))])
+        info = call.argv[1]
+        call.m.event("sink_push", idx, getattr(info, "name", None) or (info.lazy.name if isinstance(info, Adt) and info.lazy else repr(info)[:30]))
+        if k == 0:
+            return eng.mk_enum("Result", "Ok", UNIT)
+        e = Adt("String", None)
+        e.tag = ("error_of", idx)
+        return eng.mk_enum("Result", "Err", e)
+    eng.handlers.insert(0, (rx, h))
+    try:
+        with opaque_calls(eng, [r"^<F as MockFn>::info$"]):
+            for K in range(0, 4):
+                each = Adt("Each", None)
+                items = []
+                for i in range(K):
+                    b = Adt("DynCallPatternBuilder", None)
+                    b.tag = ("builder", i)
+                    items.append(Cell(b, None, f"pat{i}"))
+                each.fields[(None, i_p)] = Cell(VecVal(None, items, "Vec"), None, "patterns")
+                paths = u.explore(f, [each, Ref(Cell(Opaque("dyn Sink", "sink"), None, "sink"))], note=f"[K={K}]")
+                for p in paths:
+                    if p.outcome[0] != "return":
+                        if p.outcome[0] == "panic":
+                            u.must_be_true(f"C14.stub-deconstruct-never-panics[K={K}]", False, {"site": p.outcome[1]})
+                        continue
+                    val = p.outcome[1]
+                    is_ok = val.discr == eng.variant_index("Result", "Ok")
+                    order = [e[1] for e in events(p, "sink_push")]
+                    u.must_be_true(f"C01.stub-patterns-pushed-in-declaration-order[K={K}]", order == list(range(len(order))), {"order": order})
+                    if K == 0:
+                        err = val.fields.get(("Err", 0))
+                        u.must_be_true("C14.empty-stub-rejected", (not is_ok) and err is not None and isinstance(err.val, Adt) and err.val.tag and "no call patterns" in str(err.val.tag), {"val": repr(val)[:120]})
+                    elif is_ok:
+                        u.must_be_true(f"C14.stub-pushes-every-pattern[K={K}]", order == list(range(K)), {"order": order})
+                    else:
+                        k = len(order) - 1
+                        err = val.fields[("Err", 0)].val
+                        u.must_be_true(f"C14.stub-returns-first-push-error[K={K}]", isinstance(err, Adt) and err.tag == ("error_of", k))
+        # from_assembler
+        fa = eng.find_fn(r"::from_assembler$")
+        with opaque_calls(eng, [r"^MockAssembler::finish$", r"^SharedState::new$", r"^<.* as Default>::default$", r"^Arc::new$"]):
+            res = lazy_adt("Result", "asm_result")
+            paths = u.explore(fa, [res, Opaque("FallbackMode", "fallback")])
+            d = z3.BitVec("asm_result.discr", 64)
+            i_orig = field_index(eng, "Unimock", "original_instance")
+            i_torn = field_index(eng, "Unimock", "torn_down")
+            i_vid = field_index(eng, "Unimock", "verify_in_drop")
+            for p in paths:
+                if p.outcome[0] == "panic":
+                    u.must_hold("C14.construction-panics-only-on-assembly-error", p.pc, d == 1, {"site": p.outcome[1]})
+                    u.must_be_true("C14.no-instance-exists-when-construction-panics", not any(e[0] == "opaque" and e[1].endswith("SharedState::new") for e in p.trace))
+                elif p.outcome[0] == "return":
+                    u.must_hold("C14.instance-only-from-Ok", p.pc, d == 0)
+                    v = p.outcome[1]
+                    flags = [v.fields[(None, i)].val for i in (i_orig, i_torn, i_vid)]
+                    u.must_be_true("C09.new-instance-is-original-not-torn-down-verifying",
+                                   all(isinstance(x, Bool) for x in flags) and z3.is_true(z3.simplify(flags[0].e)) and z3.is_false(z3.simplify(flags[1].e)) and z3.is_true(z3.simplify(flags[2].e)))
+            u.witness("from_assembler: both outcomes", [z3.BoolVal({p.outcome[0] for p in paths} >= {"panic", "return"})])
+    finally:
+        eng.handlers.remove((rx, h))
+    return u.result()
+
+
+def unit_statics(eng, tier, prop):
+    """C18: distinct mocks share nothing: the crate has no mutable static / thread_local state (scan of the MIR and sources),
+    and a fresh SharedState is allocated per construction."""
+    u = Unit(eng, "no-global-state", ["whole-crate MIR scan", "SharedState::new", "Unimock::from_assembler"], "all functions of the crate")
+    import glob
+    stat = []
+    for path in glob.glob(os.path.join(eng.src_root, "src", "**", "*.rs"), recursive=True):
+        if path.endswith("src/verif.rs"):
+            continue      # the verification overlay itself (only present in overlay copies)
+        txt = re.sub(r"//[^\n]*", "", open(path).read())
+        for mm in re.finditer(r"(?<!')\bstatic\s+(mut\s+)?[A-Z_][A-Z0-9_]*\s*:|thread_local!\s*\{|lazy_static!", txt):
+            stat.append((os.path.relpath(path, eng.src_root), mm.group(0)[:40]))
+    u.must_be_true("C18.no-static-or-thread-local-items", not stat, {"found": stat[:5]})
+    uses = [(f.short, c[:60]) for f in eng.fns for c, _ in all_callees(eng, f) if re.search(r"LocalKey|thread_local|static_init|OnceLock::|LazyLock", c)]
+    u.must_be_true("C18.no-global-cell-accesses-in-MIR", not uses, {"found": uses[:5]})
+    st = [l for f in eng.fns for b in f.blocks.values() for l in b.stmts if re.search(r"const \{alloc\d+: &(mut )?", l) and "static" in l]
+    u.must_be_true("C18.no-static-references-in-MIR", not st, {"found": st[:3]})
+    fa = eng.find_fn(r"::from_assembler$")
+    cal = [c for c, _ in all_callees(eng, fa)]
+    u.must_be_true("C18.fresh-state-per-construction", any("SharedState::new" in c for c in cal) and any(re.search(r"Arc::<.*>::new", c) for c in cal), {"callees": cal})
+    u.witness("scanned", [z3.BoolVal(len(eng.fns) > 100)])
+    return u.result()
+
+
+def unit_counter_verify(eng, tier, prop):
+    """C03: CallCounter::verify for all (minimum, exactness, actual) — E1 verdict (must agree with the Kani unit) +
+    which pattern is named and with which operands."""
+    u = Unit(eng, "CallCounter::verify", ["CallCounter::verify", "CallCountExpectation::lower_bound"], "all 2^64 x 2^64 x 3 values of (minimum, actual, exactness)")
+    f = eng.find_fn(r"^counter::<impl at src/counter\.rs:\d+:1: \d+:17>::verify$")
+    i_ac = field_index(eng, "CallCounter", "actual_count")
+    i_ex = field_index(eng, "CallCounter", "expectation")
+    i_min = field_index(eng, "CallCountExpectation", "minimum")
+    i_e = field_index(eng, "CallCountExpectation", "exactness")
+    actual = eng.named(f"self.*.{i_ac}.atomic.0", 64)
+    minimum = eng.named(f"self.*.{i_ex}.{i_min}", 64)
+    ex = eng.named(f"self.*.{i_ex}.{i_e}.discr", 64)
+    EX, AL, ALP = (eng.variant_index("Exactness", v) for v in ("Exact", "AtLeast", "AtLeastPlusOne"))
+
+    def cb(call, fobj, args):
+        call.m.event("debug_fn")
+        return Opaque("debug::CallPatternDebug", "pattern_debug")
+    eng.callback_hook = cb
+    try:
+        paths = u.explore(f, [eng.arg("self", "&CallCounter"), eng.arg("info", "&MockFnInfo"), Opaque("impl Fn", "debug_fn"), eng.arg("errors", "&mut Vec<MockError>")])
+    finally:
+        eng.callback_hook = None
+    violated = z3.If(ex == EX, actual != minimum, z3.If(ex == AL, z3.ULT(actual, minimum), z3.ULE(actual, minimum)))
+    dom = [z3.ULE(ex, 2)]
+    for p in paths:
+        if p.outcome[0] == "panic":
+            u.must_hold("C03.only-panic-is-minimum+1-overflow", p.pc, z3.And(ex == ALP, minimum == z3.BitVecVal(2 ** 64 - 1, 64)), {"site": p.outcome[1]})
+            continue
+        if p.outcome[0] != "return":
+            continue
+        pushes = events(p, "vec_push")
+        u.must_be_true("C03.at-most-one-error-per-pattern", len(pushes) <= 1)
+        u.must_hold("C03.error-iff-violated", p.pc, violated if pushes else z3.Not(violated), {"pushed": len(pushes)})
+        rv = p.outcome[1]
+        u.must_hold("C03.returns-the-actual-count", p.pc, rv.fields[(None, 0)].val.e == actual)
+        u.must_be_true("C03.pattern-described-only-when-violated", len(events(p, "debug_fn")) == len(pushes))
+        if pushes:
+            u.must_be_true("C03.error-goes-to-the-callers-list", pushes[0][1] == "errors.*")
+            fm = events(p, "format_args")
+            ops = [o[1] for o in fm[0][2]] if fm else []
+            tmpl = fm[0][1] if fm else ""
+            # operands in order: method path, this pattern's description (the value debug_fn() returned), lower bound, actual count
+            okops = len(ops) == 4 and ops[0].startswith("info.*.") and ops[1].startswith("verify:_") and ops[2].startswith("verify:_") and ops[3] == "verify:_0"
+            u.must_be_true("C03.message-operands-path-pattern-bound-actual", okops, {"ops": ops})
+            u.must_hold("C03.wording-exactly-vs-at-least", p.pc, (ex == EX) if "exactly" in tmpl else z3.And(ex != EX, z3.BoolVal("at least" in tmpl)), {"template": tmpl})
+    u.must_be_unsat("C03.verify-paths-cover-all-inputs", dom + [z3.Not(z3.Or([z3.And(p.pc) for p in paths]))])
+    u.witness("violated and satisfied paths", [z3.BoolVal(any(events(p, "vec_push") for p in paths) and any(not events(p, "vec_push") and p.outcome[0] == "return" for p in paths))])
+    return u.result()
+
+
+def unit_fn_mocker_verify(eng, tier, prop):
+    """C03: FnMocker::verify + CallCounter::verify (inlined) from an arbitrary state of K patterns: the error list gets
+    one line per violated pattern, in pattern order, plus the never-called line iff no pattern was ever matched."""
+    Kmax = 3 if tier == "thorough" else 2
+    u = Unit(eng, "FnMocker::verify", ["FnMocker::verify", "CallCounter::verify", "CallCountExpectation::lower_bound", "FnMocker::verify::{closure#0}"],
+             f"K=0..{Kmax} patterns, each with arbitrary (actual count, minimum, exactness): all 64-bit values, every subset violated")
+    f = eng.find_fn(r"^fn_mocker::<impl at src/fn_mocker\.rs:\d+:1: \d+:14>::verify$")
+    i_cc = field_index(eng, "CallPattern", "call_counter")
+    i_ac = field_index(eng, "CallCounter", "actual_count")
+    i_ex = field_index(eng, "CallCounter", "expectation")
+    i_min = field_index(eng, "CallCountExpectation", "minimum")
+    i_e = field_index(eng, "CallCountExpectation", "exactness")
+    EX, AL, ALP = (eng.variant_index("Exactness", v) for v in ("Exact", "AtLeast", "AtLeastPlusOne"))
+    rxd = re.compile(r"^FnMocker::debug_pattern$")
+
+    def hd(call):
+        pi = call.argv[1]
+        idx = eng._concrete(pi.fields[(None, 0)].val) if isinstance(pi, Adt) and (None, 0) in pi.fields else None
+        call.m.event("describe", idx)
+        a = Adt("CallPatternDebug", None)
+        a.tag = ("describes", idx)
+        return a
+    eng.handlers.insert(0, (rxd, hd))
+    try:
+        for K in range(0, Kmax + 1):
+            fm = build_fn_mocker(eng, "m", K)
+            errs = VecVal(None, [], "Vec")
+            paths = u.explore(f, [Ref(Cell(fm, None, "m")), Ref(Cell(errs, None, "errors"))], note=f"[K={K}]")
+            act = [eng.named(f"m.pat{k}.{i_cc}.{i_ac}.atomic.0", 64) for k in range(K)]
+            mn = [eng.named(f"m.pat{k}.{i_cc}.{i_ex}.{i_min}", 64) for k in range(K)]
+            ex = [eng.named(f"m.pat{k}.{i_cc}.{i_ex}.{i_e}.discr", 64) for k in range(K)]
+            vio = [z3.If(ex[k] == EX, act[k] != mn[k], z3.If(ex[k] == AL, z3.ULT(act[k], mn[k]), z3.ULE(act[k], mn[k]))) for k in range(K)]
+            total = z3.BitVecVal(0, 64)
+            noov = []
+            for a_ in act:
+                noov.append(z3.BVAddNoOverflow(total, a_, False))
+                total = total + a_
+            no_plus1_ov = [z3.Not(z3.And(ex[k] == ALP, mn[k] == z3.BitVecVal(2 ** 64 - 1, 64))) for k in range(K)]
+            dom = [z3.ULE(e_, 2) for e_ in ex]
+            rets = []
+            for p in paths:
+                if p.outcome[0] == "panic":
+                    u.must_be_unsat(f"C03.panic-only-on-arithmetic-overflow[K={K}]", list(p.pc) + noov + no_plus1_ov, {"site": p.outcome[1]})
+                    continue
+                if p.outcome[0] != "return":
+                    continue
+                rets.append(p)
+                final_errs = p_final_vec(p, 1)
+                kinds = []
+                for x in final_errs.items:
+                    v = x.val
+                    kinds.append(eng.enums["MockError"][v.discr] if isinstance(v, Adt) and isinstance(v.discr, int) else "?")
+                nfail = len([k for k in kinds if k == "FailedVerification"])
+                never = [k for k in kinds if k == "MockNeverCalled"]
+                u.must_be_true(f"C03.only-verification-errors-and-never-called-last[K={K}]", kinds == ["FailedVerification"] * nfail + never and len(never) <= 1, {"kinds": kinds})
+                nv = z3.BitVecVal(0, 64)
+                for k in range(K):
+                    nv = nv + z3.If(vio[k], z3.BitVecVal(1, 64), z3.BitVecVal(0, 64))
+                u.must_hold(f"C03.one-line-per-violated-pattern[K={K}]", p.pc, nv == nfail, {"kinds": kinds})
+                u.must_hold(f"C03.never-called-iff-total-zero[K={K}]", p.pc, (total == 0) if never else (total != 0), {"kinds": kinds})
+                # each violated line describes its own pattern, in pattern order
+                desc = [e[1] for e in events(p, "describe")]
+                u.must_be_true(f"C03.violated-patterns-described-in-order[K={K}]", desc == sorted(desc) and len(desc) == nfail and len(set(desc)) == len(desc), {"described": desc})
+                for k in range(K):
+                    u.must_hold(f"C03.pattern-{k}-described-iff-violated[K={K}]", p.pc, vio[k] if k in desc else z3.Not(vio[k]))
+            u.must_be_unsat(f"C03.fn-mocker-verify-covers-all-inputs[K={K}]", dom + [z3.Not(z3.Or([z3.And(p.pc) if p.pc else z3.BoolVal(True) for p in paths if p.outcome[0] in ("return", "panic")]))])
+            u.witness(f"paths[K={K}]", [z3.BoolVal(len(rets) >= 2 ** K)])
+    finally:
+        eng.handlers.remove((rxd, hd))
+    return u.result()
+
+
+def p_final_vec(p, root_name):
+    """The VecVal reachable from the explored function's `&mut Vec` argument named root_name in path p's own state."""
+    v = p.user["_args"][root_name].val
+    while isinstance(v, Ref):
+        v = v.cell.val
+    return v
+
+
 def unit_todo(eng, tier, prop):
     u = Unit(eng, "todo", [], "")
     u.errors.append("unit not implemented yet")
@@ -782,8 +1236,14 @@ def unit_todo(eng, tier, prop):
 
 
 UNITS = {
+    "assembler": unit_assembler,
     "eval_dyn": unit_eval_dyn,
     "locked_closures": unit_locked_closures,
+    "tuples": unit_tuples,
+    "construction": unit_construction,
+    "statics": unit_statics,
+    "counter_verify": unit_counter_verify,
+    "fn_mocker_verify": unit_fn_mocker_verify,
     "induce_panic": unit_induce_panic,
     "teardown": unit_teardown,
     "drop_flags": unit_torn_down_flag,
